@@ -140,12 +140,20 @@ class AuditProcFamily(Family):
                    "the stale-data ticker (1 min) does not fire during a case"]
     rule = ""
 
+    def race_select(self, cases, tier):
+        n = 6 if tier == "quick" else 40
+        return [c for c in cases if c.get("cb")][:n] + [c for c in cases if not c.get("cb")][:n]
+
     def modes_for(self, c):
+        if c.get("cb"):
+            return (["cbconc"], ["cbconc"])
         if c.get("reasm"):
             return (["reasm"], ["reasm"])
         return (self.harness_mode, self.driver_args)
 
     def harness_line(self, c):
+        if c.get("cb"):
+            return "%s %d %d %d" % ((c["id"],) + tuple(c["cb"]))
         if c.get("reasm"):
             return "%s %d %d %s" % (c["id"], c["reasm"][0], c["reasm"][1], ";".join(c["ops"]))
         return "%s %s %s%s" % (c["id"], c["fail"], ";".join(c["ops"]), (" after=%d" % c["after"]) if c.get("after") else "")
@@ -157,6 +165,8 @@ class AuditProcFamily(Family):
         return s
 
     def sample(self, c):
+        if c.get("cb"):
+            return {"callback_from_goroutines": c["cb"][0], "deliveries_each": c["cb"][1], "variant": c["cb"][2]}
         if c.get("after"):
             return {"fail_at_write": c["fail"], "ops": c["ops"], "after_seq": c["after"]}
         if c.get("reasm"):
@@ -261,7 +271,9 @@ class AuditProcFamily(Family):
             cs.append(self.reasm_case(rng, True))
         flow = [self.flowing_expiry(rng) for _ in range(2 if quick else 12)]
         # first, so that the thorough tier's race-detector pass (first cases) covers concurrent deliveries
-        cs = flow + cs
+        # the callback itself handed groups from several Go routines at once (the reassembler calls it outside its lock)
+        cb = [dict(ops=[], fail="-", cb=(g, n, v)) for g, n, v in ((2, 300, 0), (3, 200, 1), (2, 1500, 1))]
+        cs = flow + cb + cs
         return cs
 
     def extra_cases(self, rng, n):
